@@ -6,5 +6,6 @@ CONSTANTS
   UseLoop = TRUE
   Proto = "code"
   RequireLastLeaf = TRUE
-  MaxSteps = 4
+  MaxSteps = 100
+  EmitAt = 5
 INVARIANTS Emit
